@@ -3272,6 +3272,10 @@ sexp sexp_list_to_uvector_op(sexp ctx, sexp self, sexp_sint_t n, sexp etype, sex
   } else {
     sexp_gc_preserve1(ctx, res);
     et = sexp_unbox_fixnum(etype);
+    if (et < SEXP_U1 || et >= SEXP_END_OF_UNIFORM_TYPES) {
+      sexp_gc_release1(ctx);
+      return sexp_xtype_exception(ctx, self, "unknown uniform vector type", etype);
+    }
     res = et == SEXP_U8 ? sexp_make_bytes(ctx, sexp_length(ctx, ls), SEXP_VOID) : sexp_make_uvector(ctx, etype, sexp_length(ctx, ls));
     if (sexp_uvector_prefix(et) == 's') {
       min = (-1LL << (sexp_uvector_element_size(et)-1));
